@@ -133,16 +133,16 @@ GEN_GROUPS = {   # group -> (groups it builds on, proof files, theorems whose `P
     "uptime": ([], ["GenP_uptime.v", "GenUptC.v"], ["gen_round_frequency_eq", "gen_should_fingerprint_eq", "gen_valid_for_uptime_fingerprint_eq", "gen_uptime_post_init_eq",
                                                     "gen_fingerprint_uptime_eq", "gen_fingerprint_uptime_eq_sane", "C13_translated_gate", "C13_translated_fields",
                                                     "C13_translated_fields_obj", "C13_translated_packet_gate", "C13_translated_packet_gate_any_options"]),
-    "select": (["match"], ["GenP_select.v"], ["gen_guess_distance_eq", "gen_should_fingerprint_eq", "gen_valid_for_tcp_fingerprint_eq", "gen_find_tcp_match_eq", "gen_distance_eq"]),
+    "select": (["match"], ["GenP_select.v"], ["gen_guess_distance_eq", "gen_should_fingerprint_eq", "gen_valid_for_tcp_fingerprint_eq", "gen_find_tcp_match_eq", "gen_distance_eq", "gen_fingerprint_tcp_eq"]),
     "mtu": ([], ["GenP_mtu.v"], ["gen_should_fingerprint_eq", "gen_valid_for_mtu_fingerprint_eq", "gen_mtu_from_mss_eq", "gen_mtu_from_mss_reject", "gen_mtu_signatures_match_eq",
-                                 "gen_find_mtu_match_eq", "gen_impersonate_mtu_eq", "C08_translated_roundtrip", "C08_translated_untouched"]),
+                                 "gen_find_mtu_match_eq", "gen_impersonate_mtu_eq", "C08_translated_roundtrip", "C08_translated_untouched", "gen_fingerprint_mtu_eq"]),
     "options": ([], ["GenOptP.v"], ["gen_parse_options_eq", "gen_parse_options_terminates"]),
     "layers": (["options", "uptime"], ["GenP_layers.v", "GenLayC.v"],
                ["gen_from_ipv4_eq", "fields_ip4_unframed", "gen_from_ipv6_eq", "fields_ip6_unframed", "gen_IP_from_packet_v4", "gen_IP_from_packet_v6", "gen_IP_from_packet_none",
                 "gen_TCP_from_packet_eq", "gen_TCP_from_packet_none", "fields_tcp_unframed", "fields_tcp_flags", "gen_sig_from_packet_eq", "gen_extract_eq", "gen_extract_sig_eq",
                 "gen_extract_ok", "C03_translated_fields4", "C03_translated_fields6", "C03_translated_tcp", "C03_translated_packet4", "C03_translated_packet6", "C03_translated_sig_of",
                 "C03_translated_trailer_ignored", "C03_translated_parse_packet", "C03_translated_should_fingerprint"]),
-    "http": ([], ["GenP_http.v", "GenHdrP.v"], ["gen_find_http_match_eq", "gen_software_eq", "gen_dishonest_eq", "gen_headers_match_eq", "gen_http_signatures_match_eq", "gen_rec_matches_eq"]),
+    "http": ([], ["GenP_http.v", "GenHdrP.v"], ["gen_find_http_match_eq", "gen_software_eq", "gen_dishonest_eq", "gen_headers_match_eq", "gen_http_signatures_match_eq", "gen_rec_matches_eq", "gen_fingerprint_http_eq"]),
 }
 GEN_PRELIB = {"layers": ["GenLayLib.v"]}      # hand-written libraries a group's generated file imports (compiled before it, part of its hash)
 GEN_EXTRA_TRANSLATOR = {"layers": "lay2coq.py"}   # groups written by a translator of their own (built on py2coq as a library)
